@@ -29,7 +29,13 @@ def wake_calls(F, m):
         if t.get("f") is None:
             continue
         c = F.inst[t["f"]]
-        if (c.kind == "virtual" and "SelfPipeWrite" in (c.dyn or "")) or c.id == prim or (c.local and prim in F.reach([c])):
+        if c.kind == "virtual" and "SelfPipeWrite" in (c.dyn or ""):
+            # a method of the write-end trait object counts as a wake only if every implementation reaches the wake primitive (one byte
+            # written) — `shutdown()`/EOF or any other signalling is not the wake-up the consumers' callbacks are written for
+            tg = [tid for tid, _ in (c.impls or [])]
+            if tg and all(tid == prim or prim in F.reach([F.inst[tid]]) for tid in tg):
+                out.append((bb, t))
+        elif c.id == prim or (c.local and prim in F.reach([c])):
             out.append((bb, t))
     return out
 
@@ -219,7 +225,18 @@ def rule_d(ctx):
                   {"init": [t["sp"] for _, t in inits], "register": [a.term(b)["sp"] for b in regs]})
 
 
+def rule_e(ctx):
+    """never parked as pending without an armed wake-up: the non-blocking poll reports Pending only when its readiness callback was consulted
+    in that call and said 'nothing available' — the callback is what arms the waker (shared with C11.c)"""
+    from .C11 import rule_c
+    from .C18 import _Alias
+    ctx.rule("C09.e", "poll_signal constructs PollResult::Pending only on the branch where the readiness callback answered Ok(false) in the same call; "
+                      "adapters return Poll::Pending only from that arm (shared with C11.c)", floor=5)
+    rule_c(_Alias(ctx, "C09.e"))
+
+
 def run(ctx):
+    ctx.guarded("C09.e", rule_e)
     ctx.guarded("C09.d", rule_d)
     ctx.guarded("C09.a", rule_a)
     ctx.guarded("C09.b", rule_b)
